@@ -247,6 +247,10 @@ class Server:
     def restart(self):
         if not self._restart:
             self._restart = True
+            # as in shutdown: do not announce ports which are about to be closed.
+            # run() creates a new listener when the interfaces are up again
+            if self.discovery:
+                self.discovery.shutdown()
             for iface in self.interfaces.values():
                 iface.shutdown()
 
